@@ -464,6 +464,32 @@ inline void build_corpus() {
     g_files.push_back((int)g_corpus.size());
     g_corpus.push_back(e);
   }
+  // hand-assembled streams (corpus/handmade/README.md): layouts this tree's encoder cannot write (legacy framing with
+  // attributes in unusual order, predictor inputs at the edge of 64-bit arithmetic); valid or not, they are carriers like the files
+  {
+    const char *home = getenv("VERIF_HOME");
+    const std::string hdir = std::string(home ? home : "/verif") + "/corpus/handmade";
+    std::vector<std::string> hf;
+    if (DIR *d = opendir(hdir.c_str())) {
+      while (dirent *de = readdir(d)) {
+        std::string n = de->d_name;
+        if (n.size() > 4 && n.substr(n.size() - 4) == ".drc") hf.push_back(n);
+      }
+      closedir(d);
+    }
+    std::sort(hf.begin(), hf.end());
+    for (auto &n : hf) {
+      std::ifstream f(hdir + "/" + n, std::ios::binary);
+      Bytes b((std::istreambuf_iterator<char>(f)), std::istreambuf_iterator<char>());
+      if (b.size() < 10) continue;
+      Entry e;
+      e.name = "hand:" + n;
+      e.bytes = b;
+      e.evsig = mc::hash_str(n);
+      g_files.push_back((int)g_corpus.size());
+      g_corpus.push_back(e);
+    }
+  }
   // sub-corpus: smallest stream per event signature
   std::map<uint64_t, int> best;
   for (size_t i = 0; i < g_corpus.size(); ++i) {
